@@ -49,18 +49,30 @@ func (r replyRegistry) deregister(key [4]byte) {
 // Returns true if the key was found (hit), false if it was absent (miss).
 // On hit, if the channel is already full (a duplicate reply raced in) the
 // result is silently discarded via the default branch — no block, no panic.
+//
+// The hand-off runs inside Compute, i.e. under the same per-key serialisation as deregister (Delete):
+// once a sender's deregister has returned, nothing more can land in its channel. That lets a sender
+// whose wait ends without a reply (timeout, cancellation, teardown) close its slot and then collect a
+// result that was routed concurrently, instead of dropping it on the floor (see sendWaitReply).
 func (r replyRegistry) route(key [4]byte, res replyResult) bool {
-	ch, ok := r.m.Load(key)
-	if !ok {
-		return false
-	}
+	routed := false
 
-	select {
-	case ch <- res:
-	default:
-	}
+	r.m.Compute(key, func(ch chan replyResult, loaded bool) (chan replyResult, bool) {
+		if !loaded {
+			return nil, true // no waiter: leave the registry untouched
+		}
 
-	return true
+		routed = true
+
+		select {
+		case ch <- res:
+		default:
+		}
+
+		return ch, false
+	})
+
+	return routed
 }
 
 // len returns the number of currently registered pending-reply entries.
